@@ -66,6 +66,7 @@ func genHpackTables(repo string) (string, error) {
 // genH2Src: tokens / control shapes read from the source with go/ast.
 //
 //	h2_headers_empty_frag_ok    frame.go parseHeadersFrame: `len(p)-int(padLength) OP 0`  (`<` accepts an empty fragment, `<=` rejects it)
+//	h2_data_pad_gt / h2_push_pad_gt  frame.go parseDataFrame / parsePushPromise: the pad-length test is `int(pad) > len(rest)` (true) or `>=` (false)
 //	h2_cont_advance             mhttp2.go readMetaFrame: the recursive ReadFrame call reads at `off+msize` (true) or at `off` (false)
 //	h2_client_settings_wakes    mhttp2.go MClientConn.processSettings: contains a call cc.cond.Broadcast()
 //	h2_client_settings_validated mhttp2.go MClientConn.processSettings: calls s.Valid() on every setting
@@ -122,6 +123,43 @@ func genH2Src(repo string) (string, error) {
 		ok = false
 		b.WriteString("Definition h2_headers_empty_frag_ok := false.\n")
 	}
+	// --- pad checks of parseDataFrame / parsePushPromise: `int(pad) > len(x)` (true) or `>=` (false)
+	padCmp := func(fn string) string {
+		res := ""
+		if fd := FindFunc(ff, "", fn); fd != nil {
+			ast.Inspect(fd.Body, func(n ast.Node) bool {
+				be, isBe := n.(*ast.BinaryExpr)
+				if !isBe {
+					return true
+				}
+				c, isCall := be.X.(*ast.CallExpr)
+				if !isCall {
+					return true
+				}
+				if f, isF := c.Fun.(*ast.Ident); !isF || f.Name != "int" {
+					return true
+				}
+				if y, isY := be.Y.(*ast.CallExpr); isY {
+					if f, isF := y.Fun.(*ast.Ident); isF && f.Name == "len" {
+						switch be.Op {
+						case token.GTR:
+							res = "true"
+						case token.GEQ:
+							res = "false"
+						}
+					}
+				}
+				return true
+			})
+		}
+		if res == "" {
+			ok = false
+			res = "false"
+		}
+		return res
+	}
+	fmt.Fprintf(&b, "Definition h2_data_pad_gt := %s.\n", padCmp("parseDataFrame"))
+	fmt.Fprintf(&b, "Definition h2_push_pad_gt := %s.\n", padCmp("parsePushPromise"))
 	// --- readMetaFrame
 	_, mf, err := ParseGoFile(repo, "pkg/module/http2/mhttp2.go")
 	if err != nil {
